@@ -196,6 +196,117 @@ def flush(ctx, pending):
     pending.clear()
 
 
+# ---------------------------------------------------------------------------------------------
+# gaps between chunks vs the network-idle timer, on a real acceptor
+# ---------------------------------------------------------------------------------------------
+def idle_scenario(args):
+    """args = (T seconds, plan): plan = [[gap ticks, last?], ...] for two C-ECHO-RQ PDUs sent to a real acceptor with
+    network_timeout T (1 tick = T / 10).  -> dict(answers = PDU types received after each complete request, aborted)"""
+    import socket
+    import time
+
+    from harness import e2e
+    from harness.props import c08
+    from pynetdicom import AE
+    from pynetdicom.sop_class import Verification
+
+    T, plan = args
+    e2e.quiet()
+    B = c08._bytes()
+    ae = AE()
+    ae.add_supported_context(Verification)
+    ae.acse_timeout = ae.dimse_timeout = 30
+    ae.network_timeout = T
+    srv = ae.start_server(("127.0.0.1", 0), block=False)
+    s = socket.create_connection(("127.0.0.1", srv.socket.getsockname()[1]))
+    s.settimeout(3 * T + 2)
+    out = {"answers": [], "aborted": False}
+    try:
+        s.sendall(B["rq"])
+        if s.recv(4096)[:1] != b"\x02":
+            return {"error": "not accepted"}
+        # cut the two requests into the planned chunks
+        pdu = B["echo_rq"]
+        groups, cur = [], []
+        for gap, last in plan:
+            cur.append(gap)
+            if last:
+                groups.append(cur)
+                cur = []
+        tick = T / 10.0
+        for gaps in groups:
+            k = len(gaps)
+            cuts = [len(pdu) * i // k for i in range(k + 1)]
+            for i, gap in enumerate(gaps):
+                time.sleep(gap * tick)
+                try:
+                    s.sendall(pdu[cuts[i] : cuts[i + 1]])
+                except OSError:
+                    out["aborted"] = True
+            try:
+                r = s.recv(4096)
+            except (socket.timeout, OSError):
+                r = b""
+            out["answers"].append(r[0] if r else None)
+            if not r or r[0] == 7:
+                out["aborted"] = True
+                break
+        return out
+    finally:
+        try:
+            s.close()
+        except OSError:
+            pass
+        srv.shutdown()
+
+
+def idle_check(ctx):
+    import multiprocessing as mp
+
+    from harness import e2e
+    from translate import timeouts as tr_timeouts
+
+    T = round(1.0 * e2e.load_factor(), 2)
+    rng = ctx.rng
+    plans = [
+        [[0, False], [7, False], [7, True], [1, True]],          # one PDU trickling in over 1.4 T
+        [[0, False], [7, True], [7, True]],                       # split PDU, then a quiet gap: 0.7 T + 0.7 T
+        [[0, True], [8, False], [0, False], [8, True]],
+    ]
+    for _ in range(ctx.n(3, 40)):
+        plan = []
+        for _pdu in range(2):
+            k = rng.choice([1, 2, 3])
+            for i in range(k):
+                plan.append([rng.choice([0, 0, 4, 8]), i == k - 1])
+        plans.append(plan)
+    pool = mp.get_context("fork").Pool(processes=6, maxtasksperchild=4)
+    try:
+        results = pool.map(idle_scenario, [(T, p) for p in plans])
+        # a plan that went wrong is run once more, alone (gaps of 0.8 T leave little room on a busy machine)
+        for i, r in enumerate(results):
+            if "error" in r or r.get("aborted"):
+                results[i] = pool.apply(idle_scenario, ((2 * T, plans[i]),))
+    finally:
+        pool.terminate()
+        pool.join()
+    policy = "perChunk" if tr_timeouts.extract_idle() else "perPdu"
+    model = ctx.lean([["idle.aborted", policy, 10, [[g, l] for g, l in p]] for p in plans])
+    for plan, r, m in zip(plans, results, model):
+        case = ["idle", plan]
+        total = sum(g for g, _ in plan)
+        ctx.case(case, nontrivial=total > 10, kind="idle:" + ("over-T-in-total" if total > 10 else "short"))
+        if "error" in r:
+            ctx.diff(case, r, "n/a", "idle scenario failed")
+            continue
+        if r["aborted"] != (m == "T" or m is True):
+            ctx.diff(case, {"aborted": r["aborted"], "answers": r["answers"]}, {"aborted": m}, "idle timer vs Model/Idle.lean")
+        if r["aborted"]:
+            ctx.fail("framing:aborted-as-idle-although-every-gap-below-network-timeout",
+                     f"two C-ECHO-RQ PDUs sent in chunks {plan} (gap in tenths of the network timeout, last chunk of a PDU?): every gap is below "
+                     f"the network timeout, yet the association was aborted (answers {r['answers']})", case)
+
+
 def run(ctx):
     ctx.rule = (
         "generated PDU streams (P-DATA-TF with 1-3 PDVs of 1..9000 bytes, release, abort), optional truncated tail or "
@@ -222,6 +333,7 @@ def run(ctx):
             ctx.fail("framing:timeout", f"after a read timeout received {summ(real)}", case)
         pending.append((case, real, ["frame", c["stream"], oracle]))
     flush(ctx, pending)
+    idle_check(ctx)
     if not ctx.quick:
         # small-scope exhaustive: a 5-PDU stream, every single cut + every close offset, byte-at-a-time reads
         rng = ctx.rng
@@ -246,6 +358,10 @@ def run(ctx):
 
 def replay(ctx, case):
     c = case["case"]
+    if c[0] == "idle":
+        r = idle_scenario((1.0, c[1]))
+        print(r)
+        return 1 if r.get("aborted") else 0
     stream = bytes.fromhex(c[1][1:]) if isinstance(c[1], str) else c[1]
     chunks, caps = c[2], c[3]
     t = None if c[4] == "none" else c[4]
